@@ -40,6 +40,13 @@ pub struct Owns(Vec<Entity>);
 pub struct X(pub u32);
 #[derive(Component, Serialize, Deserialize, Clone, PartialEq, Debug)]
 pub struct Y(pub u32);
+/// Never registered for replication: a game's own bookkeeping on replicated entities (table / sparse-set storage). Inserting or
+/// removing one moves the entity to another archetype with the same replicated components.
+#[derive(Component, Clone, PartialEq, Debug)]
+pub struct N(pub u32);
+#[derive(Component, Clone, PartialEq, Debug)]
+#[component(storage = "SparseSet")]
+pub struct NS(pub u32);
 /// Only registered on clients with a deliberately different protocol.
 #[derive(Component, Serialize, Deserialize, Clone, PartialEq, Debug)]
 pub struct Extra(pub u32);
@@ -184,6 +191,10 @@ pub struct Cfg {
     /// (server plugins disabled); otherwise every app has all plugins, as in the repository's tests
     #[serde(default)]
     pub split_plugins: bool,
+    /// generate `Noise` / `ClientNoise` / `Touch`: unreplicated components come and go on replicated entities on both sides
+    /// (archetype moves that change nothing replicated), and components are marked changed without a new value
+    #[serde(default)]
+    pub noise: bool,
 }
 
 impl Default for Cfg {
@@ -218,6 +229,7 @@ impl Default for Cfg {
             markers: false,
             custom_fns: 0,
             split_plugins: false,
+            noise: false,
         }
     }
 }
@@ -326,6 +338,13 @@ pub enum Step {
     ServerStop,
     ServerStart,
     JunkAck { client: usize, bytes: Vec<u8> },
+    /// the server's game inserts (`on`) or removes an unreplicated component (`sparse`: sparse-set storage) on the entity:
+    /// an archetype move that changes nothing replicated (`Cfg::noise`)
+    Noise { slot: usize, on: bool, sparse: bool },
+    /// the client's game inserts or removes a local, unreplicated component on its copy of the entity (`Cfg::noise`)
+    ClientNoise { client: usize, slot: usize, on: bool },
+    /// mark component `k` changed without giving it a new value (`set_changed`; `Cfg::noise`)
+    Touch { slot: usize, k: K },
 }
 
 /// Which oracles are armed (chosen by the property being checked, not part of a case).
